@@ -442,6 +442,51 @@ var ruleTruncTable = &core.Rule{ID: "R08.1", Min: 7,
 			}
 			s.Check(bad == "", key, c.Pos(f.Pos()), map[bool]string{true: "criterion parsed == len", false: "criterion inspected == len"}[ot.whole], bad)
 		}
+		// sample points of the table, the shortest header included: (limit, len, parsed, inspected) -> verdict, with
+		// the query and first-token gates left open (some path must accept / no path may accept)
+		if vf == f {
+			pe, ie := extractOf(pcall, 0), extractOf(pcall, 1)
+			for _, tc := range []struct {
+				lim, ln, parsed, insp int64
+				want                  bool
+			}{{0, 5, 5, 5, true}, {0, 5, 4, 5, false}, {10, 5, 5, 5, true}, {10, 5, 3, 5, false}, {5, 5, 2, 5, true}, {5, 5, 5, 4, false}, {1, 1, 0, 1, true}, {1, 1, 1, 1, true}, {0, 1, 1, 1, true}} {
+				key := fmt.Sprintf("sample limit=%d len=%d parsed=%d inspected=%d", tc.lim, tc.ln, tc.parsed, tc.insp)
+				if pe == nil || ie == nil {
+					break
+				}
+				ev := newEval(c)
+				ev.Env = fde.Env{limV: constant.MakeInt64(tc.lim), pe: constant.MakeInt64(tc.parsed), ie: constant.MakeInt64(tc.insp)}
+				for _, l := range lens {
+					ev.Env[l] = constant.MakeInt64(tc.ln)
+				}
+				exits, err := ev.Walk(start, nil, nil, 8)
+				if err != nil {
+					s.Und(key, c.Pos(f.Pos()), err.Error())
+					continue
+				}
+				accepts, open := false, false
+				for _, x := range exits {
+					if x.Ret == nil {
+						continue
+					}
+					v, ok := x.ValAt(ev, x.Ret.Results[0])
+					switch {
+					case !ok || v.Kind() != constant.Bool:
+						open = true
+					case constant.BoolVal(v):
+						accepts = true
+					}
+				}
+				switch {
+				case open:
+					s.Und(key, c.Pos(f.Pos()), "a verdict on this path does not evaluate")
+				case tc.want:
+					s.Check(accepts, key, c.Pos(f.Pos()), "accepted when the gates pass", fmt.Sprintf("a header of %d byte(s) under limit %d of which the scanner parsed %d and inspected %d is rejected on every path; it is a well-formed document or a prefix of one", tc.ln, tc.lim, tc.parsed, tc.insp))
+				default:
+					s.Check(!accepts, key, c.Pos(f.Pos()), "rejected", fmt.Sprintf("a header of %d byte(s) under limit %d of which the scanner parsed %d and inspected %d is accepted", tc.ln, tc.lim, tc.parsed, tc.insp))
+				}
+			}
+		}
 		// R09.2: equality, not >=, with len(raw)
 		isLen := func(v ssa.Value) bool {
 			for _, l := range lens {
@@ -2155,3 +2200,129 @@ func searchDomain(u *ssa.UnOp, bp *ssa.Parameter) map[byte]bool {
 	}
 	return nil
 }
+
+// R08.8
+var ruleJSONGate = &core.Rule{ID: "R08.8", Min: 1,
+	Doc: "cheap gate in front of the scanner (a module function from the header to bool whose refusal rejects the input, none required): its byte loop, tabulated over 0..255, steps over the four JSON whitespace bytes and answers true for '{' and '[' — a document may be preceded by whitespace (RFC 8259 §2)",
+	Run: func(c *core.Ctx, s *core.Sink) {
+		f, pcall := jsonHelperFn(c)
+		if pcall == nil {
+			core.Bail("JSON helper without a scanner call")
+		}
+		n := 0
+		for _, ci := range core.Calls(f) {
+			call, ok := ci.(*ssa.Call)
+			if !ok {
+				continue
+			}
+			g := call.Call.StaticCallee()
+			if g == nil || g == getJSON(c).parse || !core.InMod(g) || g.Blocks == nil || len(g.Params) != 1 || len(call.Call.Args) != 1 || call.Call.Args[0] != ssa.Value(f.Params[0]) {
+				continue
+			}
+			if !core.IsByteSlice(g.Params[0].Type()) || g.Signature.Results().Len() != 1 {
+				continue
+			}
+			if bt, ok := g.Signature.Results().At(0).Type().Underlying().(*types.Basic); !ok || bt.Kind() != types.Bool {
+				continue
+			}
+			// only a call whose answer decides a rejection
+			gates := false
+			for _, r := range *call.Referrers() {
+				switch x := r.(type) {
+				case *ssa.If:
+					gates = true
+				case *ssa.UnOp:
+					for _, r2 := range *x.Referrers() {
+						if _, ok := r2.(*ssa.If); ok {
+							gates = true
+						}
+					}
+				}
+			}
+			if !gates {
+				continue
+			}
+			n++
+			rs := fde.FindRangeOver2(g, g.Params[0])
+			if len(rs) == 0 {
+				// neither a loop nor a call that could do the stepping: the gate looks at a fixed position
+				loops, calls := false, false
+				for _, b := range g.Blocks {
+					if loopBlock(b) {
+						loops = true
+					}
+				}
+				for _, ci := range core.Calls(g) {
+					if _, isB := ci.Common().Value.(*ssa.Builtin); !isB {
+						for _, a := range ci.Common().Args {
+							if core.IsByteSlice(a.Type()) {
+								calls = true
+							}
+						}
+					}
+				}
+				if !loops && !calls {
+					s.Bad("gate "+g.Name()+": byte loop", c.Pos(g.Pos()), "the gate has no loop over the header and hands it to no function: it judges one fixed position, so a JSON document preceded by whitespace is refused before the scanner sees it")
+					continue
+				}
+			}
+			if len(rs) != 1 {
+				s.Und("gate "+g.Name()+": byte loop", c.Pos(g.Pos()), fmt.Sprintf("%d loops over the header found in the gate (need exactly 1): its treatment of leading whitespace is not decided", len(rs)))
+				continue
+			}
+			r := rs[0]
+			body := loopBlocks(r.Header)
+			var loads []ssa.Value
+			for b := range body {
+				for _, in := range b.Instrs {
+					if u, ok := in.(*ssa.UnOp); ok && u.Op == token.MUL {
+						if ia, ok := u.X.(*ssa.IndexAddr); ok && ia.X == ssa.Value(g.Params[0]) {
+							loads = append(loads, u)
+						}
+					}
+				}
+			}
+			// loads of the same element after the loop body left the loop (return raw[i] == '{' in an exit block)
+			for _, b := range g.Blocks {
+				if body[b] {
+					continue
+				}
+				for _, in := range b.Instrs {
+					if u, ok := in.(*ssa.UnOp); ok && u.Op == token.MUL {
+						if ia, ok := u.X.(*ssa.IndexAddr); ok && ia.X == ssa.Value(g.Params[0]) && r.ElemAddr != nil && ia.Index == r.ElemAddr.Index {
+							loads = append(loads, u)
+						}
+					}
+				}
+			}
+			for _, bv := range []byte{' ', '\t', '\r', '\n', '{', '['} {
+				key := fmt.Sprintf("gate %s: leading byte %q", g.Name(), bv)
+				ev := newEval(c)
+				ev.Env = fde.Env{}
+				for _, l := range loads {
+					ev.Env[l] = constant.MakeInt64(int64(bv))
+				}
+				exits, err := ev.Walk(r.Body, r.Header, func(blk *ssa.BasicBlock) bool { return blk == r.Header }, 0)
+				if err != nil || len(exits) != 1 {
+					s.Und(key, c.Pos(g.Pos()), fmt.Sprintf("the iteration does not evaluate (%v, %d outcomes)", err, len(exits)))
+					continue
+				}
+				x := exits[0]
+				if bv == '{' || bv == '[' {
+					okT := false
+					if x.Ret != nil {
+						if v, ok := x.ValAt(ev, x.Ret.Results[0]); ok && v.Kind() == constant.Bool && constant.BoolVal(v) {
+							okT = true
+						}
+					}
+					s.Check(okT, key, c.Pos(g.Pos()), "answers true", fmt.Sprintf("the gate does not let a header that starts with %q through to the scanner", bv))
+				} else {
+					s.Check(x.Stop == r.Header, key, c.Pos(g.Pos()), "stepped over",
+						fmt.Sprintf("the gate does not step over a leading %q: a JSON document preceded by whitespace is refused before the scanner sees it", bv))
+				}
+			}
+		}
+		if n == 0 {
+			s.OK("gate in front of the scanner", c.Pos(f.Pos()), "none: every header reaches the scanner")
+		}
+	}}
